@@ -58,6 +58,16 @@ def modelled_codes() -> dict:
         XsdUnion.raw_decode.__code__: 'union.raw_decode',
         XsdAtomicRestriction.raw_decode.__code__: 'restriction.raw_decode',
     }
+    # the sites that evaluate XPath through elementpath
+    from xmlschema.validators.facets import XsdAssertionFacet
+    from xmlschema.validators.assertions import XsdAssert
+    from xmlschema.validators.elements import XsdAlternative
+    from xmlschema.validators.identities import FieldValueSelector
+    out[XsdAssertionFacet.__call__.__code__] = 'assertion-facet.__call__'
+    out[XsdAssert.__call__.__code__] = 'assert.__call__'
+    out[XsdAlternative.test.__code__] = 'alternative.test'
+    out[XsdElement.get_alternative_type.__code__] = 'get_alternative_type'
+    out[FieldValueSelector.get_value.__code__] = 'field.get_value'
     return out
 
 
@@ -573,3 +583,168 @@ class CacheLog:
         if not st['miss']:
             self.ev('look', k, self.val(arg) + 1)
         self.ev('ret', k, self.val(arg))
+
+
+# =============================================================================================
+#  class-level / module-level mutable objects, and the sites that evaluate XPath
+# =============================================================================================
+IMMUTABLE_CALLS = {'frozenset', 'tuple', 'compile', 'Decimal', 'TypeVar', 'namedtuple', 'getLogger', 'str', 'int', 'float',
+                   'bool', 'bytes', 'object', 'NewType', 'cast', 'property', 'partial', 'attrgetter', 'itemgetter',
+                   'MappingProxyType', 'as_uri', 'joinpath', 'basename', 'Path'}
+
+
+def scan_mutable_globals() -> list:
+    """every name bound at MODULE level or in a CLASS body of /repo/xmlschema to a dict/list/set display or
+    comprehension, or to the result of a call that is not a known constructor of immutable values:
+    [file, class ('' = module), name, kind].  Such an object is shared by all threads AND all schemas."""
+    out = []
+
+    def callname(n: ast.Call) -> Optional[str]:
+        f = n.func
+        return f.attr if isinstance(f, ast.Attribute) else (f.id if isinstance(f, ast.Name) else None)
+
+    def kind(v: Optional[ast.AST]) -> Optional[str]:
+        if isinstance(v, (ast.Dict, ast.DictComp)):
+            return 'dict'
+        if isinstance(v, (ast.List, ast.ListComp)):
+            return 'list'
+        if isinstance(v, (ast.Set, ast.SetComp)):
+            return 'set'
+        if isinstance(v, ast.Call):
+            n = callname(v)
+            if n in IMMUTABLE_CALLS:
+                return None
+            return 'call:' + str(n)
+        return None
+
+    def targets(st: ast.AST) -> tuple[list, Optional[ast.AST]]:
+        if isinstance(st, ast.Assign):
+            return [x.id for x in st.targets if isinstance(x, ast.Name)], st.value
+        if isinstance(st, ast.AnnAssign) and st.value is not None and isinstance(st.target, ast.Name):
+            return [st.target.id], st.value
+        return [], None
+    for dp, _dn, fn in os.walk(PKG):
+        for f in fn:
+            if not f.endswith('.py'):
+                continue
+            path = os.path.join(dp, f)
+            rel = os.path.relpath(path, PKG)
+            tree = ast.parse(open(path, encoding='utf-8-sig').read())
+            scopes = [('', tree.body)] + [(c.name, c.body) for c in ast.walk(tree) if isinstance(c, ast.ClassDef)]
+            for cname, body in scopes:
+                for st in body:
+                    names, v = targets(st)
+                    k = kind(v)
+                    for n in names:
+                        if k and n not in ('__all__', '__slots__'):
+                            out.append([rel, cname, n, k])
+    uniq = []
+    for o in sorted(out):
+        if o not in uniq:
+            uniq.append(o)
+    return uniq
+
+
+def fingerprint(v: Any, depth: int = 0) -> str:
+    """content fingerprint of a shared object (to see whether validation mutates it)"""
+    if v is None or isinstance(v, (bool, int, str, float, bytes)):
+        return repr(v)
+    if depth > 3:
+        return type(v).__name__
+    if isinstance(v, dict) or (hasattr(v, 'keys') and hasattr(v, 'items') and not isinstance(v, type)):
+        try:
+            return type(v).__name__ + '{' + ','.join(sorted(fingerprint(k, depth + 1) + ':' + fingerprint(x, depth + 1)
+                                                            for k, x in list(v.items())[:400])) + '}'
+        except Exception:   # noqa
+            return type(v).__name__
+    if isinstance(v, (list, tuple)):
+        return type(v).__name__ + '[' + ','.join(fingerprint(x, depth + 1) for x in v[:400]) + ']'
+    if isinstance(v, (set, frozenset)):
+        return type(v).__name__ + '{' + ','.join(sorted(fingerprint(x, depth + 1) for x in list(v)[:400])) + '}'
+    if isinstance(v, type) or callable(v) and not hasattr(v, '__dict__'):
+        return getattr(v, '__qualname__', type(v).__name__)
+    tag = getattr(v, 'tag', None)
+    if isinstance(tag, str) and hasattr(v, 'attrib'):      # ElementTree element
+        return 'Element(%s,%s,%d,%r)' % (tag, fingerprint(dict(v.attrib), depth + 1), len(v), v.text)
+    d = getattr(v, '__dict__', None)
+    slots = [a for k in type(v).__mro__ for a in getattr(k, '__slots__', ()) if isinstance(a, str)]
+    if d is None and not slots:
+        return type(v).__name__
+    items = dict(d or {})
+    for a in slots:
+        if hasattr(v, a):
+            items[a] = getattr(v, a)
+    return type(v).__name__ + '(' + ','.join(k + '=' + fingerprint(x, depth + 1) for k, x in sorted(items.items())
+                                             if not k.startswith('__')) + ')'
+
+
+def resolve_global(rel: str, cname: str, name: str) -> Any:
+    import importlib
+    mod = importlib.import_module('xmlschema.' + rel[:-3].replace(os.sep, '.').replace('.__init__', ''))
+    obj = mod if not cname else getattr(mod, cname)
+    return obj.__dict__[name] if cname else getattr(obj, name)
+
+
+XPATH_METHODS = {'evaluate', 'select', 'select_results', 'iter_results'}
+FRESH_CONTEXT_CALLS = {'XPathContext', 'XPathSchemaContext', 'get_context'}
+
+
+def xpath_sites() -> list:
+    """every call `<token>.evaluate/select/select_results(context)` of /repo/xmlschema/{validators,xpath}:
+    [file, Class.function, method, how the context argument is obtained] with
+       fresh        = built by a constructor call inside the same function (per-call context),
+       param        = a parameter of the function (the caller's context),
+       copy-of-param,
+       other:<src>  = anything else (an attribute, a global, a copy of an attribute …) = possibly SHARED."""
+    out = []
+    for sub in ('validators', 'xpath'):
+        for dp, _dn, fn in os.walk(PKG / sub):
+            for f in fn:
+                if not f.endswith('.py'):
+                    continue
+                path = os.path.join(dp, f)
+                rel = os.path.relpath(path, PKG)
+                tree = ast.parse(open(path, encoding='utf-8-sig').read())
+                funcs = []
+                for c in ast.walk(tree):
+                    if isinstance(c, ast.ClassDef):
+                        funcs += [(f'{c.name}.{x.name}', x) for x in c.body if isinstance(x, ast.FunctionDef)]
+                funcs += [(x.name, x) for x in tree.body if isinstance(x, ast.FunctionDef)]
+                for qual, fd in funcs:
+                    params = {a.arg for a in fd.args.args + fd.args.kwonlyargs}
+                    assigns: dict = {}
+                    for node in ast.walk(fd):
+                        if isinstance(node, ast.Assign):
+                            for tg in node.targets:
+                                if isinstance(tg, ast.Name):
+                                    assigns.setdefault(tg.id, []).append(node.value)
+
+                    def how(e: ast.AST, depth: int = 0) -> str:
+                        if isinstance(e, ast.Call):
+                            n = e.func.attr if isinstance(e.func, ast.Attribute) else getattr(e.func, 'id', None)
+                            if n in FRESH_CONTEXT_CALLS:
+                                return 'fresh'
+                            if n == 'copy' and e.args:
+                                inner = how(e.args[0], depth + 1)
+                                return 'copy-of-param' if inner == 'param' else 'other:' + ast.unparse(e)
+                        if isinstance(e, ast.Name) and depth < 3:
+                            if e.id in assigns:
+                                hs = {how(v, depth + 1) for v in assigns[e.id]}
+                                return hs.pop() if len(hs) == 1 else 'other:' + e.id
+                            if e.id in params:
+                                return 'param'
+                        return 'other:' + ast.unparse(e)
+                    for node in ast.walk(fd):
+                        if isinstance(node, ast.Call) and isinstance(node.func, ast.Attribute) and node.func.attr in XPATH_METHODS:
+                            recv = ast.unparse(node.func.value)
+                            if 'token' not in recv and 'parse' not in recv and not recv.startswith('self['):
+                                continue
+                            arg = node.args[0] if node.args else next((k.value for k in node.keywords if k.arg == 'context'), None)
+                            if arg is None:
+                                continue
+                            out.append([rel, qual, node.func.attr, how(arg)])
+    uniq = []
+    for o in sorted(out):
+        if o not in uniq:
+            uniq.append(o)
+    return uniq
